@@ -25,7 +25,9 @@ RULE = ('3 shipped libraries with uncertainty data: exhaustive unit vectors '
         'size 2-6; 3 temperatures across the RMSE range. Non-trivial = a '
         'mapping whose three SE values were compared with the reference at '
         '>=1 temperature, or whose out-of-basis clause was decided; distinct '
-        'by (library, mapping).')
+        'by (library, mapping).'
+        ' Count types: Python int / float, numpy, Fraction; keys as str or '
+        'Group objects. ')
 ASSUMPTIONS = [
     'the RMSE correlation value at T is observed through the public getter '
     '(its own correctness is C05)',
